@@ -28,7 +28,7 @@ theorem reopen_disk (env : Env) (hadv : env.advInvalid = true) (s : State) (sp s
   obtain ⟨e1, _, e3, e4, e5, _, _, _, _⟩ := reopen_state env s.fs o
   have e0 := reopen_fs_idx env s.fs o
   generalize loadLoop env (s.fs.idx.length / RECSIZE + 1) s.fs.idx {} = a at *
-  refine ⟨?_, ?_, ?_, ?_, ?_, ?_, ?_, ?_, ?_, ?_, ?_, ?_⟩
+  refine ⟨?_, ?_, ?_, ?_, ?_, ?_, ?_, ?_, ?_, ?_, ?_, ?_, (by rw [e0]; exact hD.allidx)⟩
   · intro k r p hh hp
     rw [e1] at hh; rw [e0]
     obtain ⟨r0, p0, _, a2, a3, _, a5⟩ := L.l1 k r hh
@@ -134,11 +134,11 @@ def openAfter (b : Bool) : Op → Bool
   | .close => false
   | _ => b
 
-theorem specStep_isOpen (sp : Spec) (op : Op) : (specStep sp op).isOpen = openAfter sp.isOpen op := by
+theorem specStep_isOpen (s : State) (sp : Spec) (op : Op) : (specStep s sp op).isOpen = openAfter sp.isOpen op := by
   cases hso : sp.isOpen <;> cases op <;> simp [specStep, openAfter, hso]
   all_goals (first | rfl | (split <;> simp [hso]) | (repeat' split) <;> simp [hso])
 
-theorem specStep_m_reopen (sp : Spec) (o : Opts) : (specStep sp (.reopen o)).m = sp.m := by
+theorem specStep_m_reopen (s : State) (sp : Spec) (o : Opts) : (specStep s sp (.reopen o)).m = sp.m := by
   unfold specStep; simp only; split <;> rfl
 
 theorem step_isOpen (env : Env) (s : State) (op : Op) (hI : IdxInv s) :
@@ -182,7 +182,7 @@ structure Core (env : Env) (s : State) (sp : Spec) (n : Nat) : Prop where
   opn : sp.isOpen = s.isOpen
 
 theorem step_disk (env : Env) (hadv : env.advInvalid = true) (s : State) (sp : Spec) (n : Nat) (h : Core env s sp n) (op : Op)
-    (hwf : Op.wf env op) (hn : n + 1 < 2^31) : Disk env (step env s op).1 (specStep sp op) (n + 1) := by
+    (hwf : Op.wf env op) (hn : n + 1 < 2^31) : Disk env (step env s op).1 (specStep s sp op) (n + 1) := by
   have hopn := h.opn
   have hD := h.disk
   have hI := h.inv
@@ -264,15 +264,23 @@ theorem step_disk (env : Env) (hadv : env.advInvalid = true) (s : State) (sp : S
         exact up _ _ (blockInvalid_disk env s sp n hD hI hash (fun e he => by rw [hsp] at he; cases he))
       | some e0 =>
         simp only
-        refine up _ _ (blockInvalid_disk env s _ n ?_ hI hash ?_)
-        · refine disk_spec env s sp _ n hD (keyOf hash) (fun k' hne => by simp only [AL.get_set, if_neg hne]) ?_
-            (fun _ _ => ⟨_, by rw [AL.get_set, if_pos rfl]⟩)
-          intro e' he' hte
-          simp only [AL.get_set, ↓reduceIte, Option.some.injEq] at he'
-          subst he'; cases hte
-        · intro e he
-          simp only [AL.get_set, ↓reduceIte, Option.some.injEq] at he
-          subst he; rfl
+        have htaint : Disk env (blockInvalid s hash).1 { isOpen := true, m := AL.set sp.m (keyOf hash) { e0 with tainted := true } } n := by
+          refine blockInvalid_disk env s _ n ?_ hI hash ?_
+          · refine disk_spec env s sp _ n hD (keyOf hash) (fun k' hne => by simp only [AL.get_set, if_neg hne]) ?_
+              (fun _ _ => ⟨_, by rw [AL.get_set, if_pos rfl]⟩)
+            intro e' he' hte
+            simp only [AL.get_set, ↓reduceIte, Option.some.injEq] at he'
+            subst he'; cases hte
+          · intro e he
+            simp only [AL.get_set, ↓reduceIte, Option.some.injEq] at he
+            subst he; rfl
+        by_cases hf : forgets s (keyOf hash) = true
+        · simp only [hf, ↓reduceIte]
+          exact up _ _ (disk_spec_drop env _ _ _ n htaint (keyOf hash)
+            (fun k' hne => by simp only [AL.get_set, AL.get_del, if_neg hne]) (by simp only [AL.get_del, ↓reduceIte])
+            (blockInvalid_forgets s hash hf))
+        · simp only [hf, Bool.false_eq_true, ↓reduceIte]
+          exact up _ _ htaint
     · simp only [ho, hopn, Bool.not_false, ↓reduceIte]; exact up _ _ hD
   | idle =>
     unfold step specStep
@@ -292,7 +300,7 @@ theorem step_disk (env : Env) (hadv : env.advInvalid = true) (s : State) (sp : S
     · simp only [ho, hopn, Bool.not_false, ↓reduceIte]; exact up _ _ hD
 
 theorem step_core (env : Env) (hadv : env.advInvalid = true) (s : State) (sp : Spec) (n : Nat) (h : Core env s sp n) (op : Op)
-    (hwf : Op.wf env op) (hn : n + 1 < 2^31) : Core env (step env s op).1 (specStep sp op) (n + 1) := by
+    (hwf : Op.wf env op) (hn : n + 1 < 2^31) : Core env (step env s op).1 (specStep s sp op) (n + 1) := by
   refine ⟨step_inv env hadv s op h.inv, step_live env s op h.live, step_disk env hadv s sp n h op hwf hn, ?_, ?_⟩
   · intro hc
     rw [step_isOpen env s op h.inv] at hc
@@ -333,7 +341,7 @@ theorem step_core (env : Env) (hadv : env.advInvalid = true) (s : State) (sp : S
 
 theorem init_core (env : Env) : Core env init {} 0 := by
   refine ⟨init_inv, init_live, ?_, ?_, rfl⟩
-  · refine ⟨?_, ?_, ?_, ?_, ?_, ?_, ?_, ?_, ?_, ?_, ?_, ?_⟩
+  · refine ⟨?_, ?_, ?_, ?_, ?_, ?_, ?_, ?_, ?_, ?_, ?_, ?_, ?_⟩
     all_goals first
       | (intro k r p hh; simp [init, AL.get] at hh; done)
       | (intro k e r p he; simp [AL.get] at he; done)
@@ -354,11 +362,10 @@ theorem init_ref (env : Env) : Ref env init {} := by
   · intro b hb; simp [init] at hb
   · intro k e he; simp [AL.get] at he
 
-def specFinal (sp : Spec) (ops : List Op) : Spec := ops.foldl specStep sp
 
 theorem run_core (env : Env) (hadv : env.advInvalid = true) : ∀ (ops : List Op) (s : State) (sp : Spec) (n : Nat),
     Core env s sp n → (∀ op ∈ ops, Op.wf env op) → n + ops.length < 2^31 →
-    Core env (run env s ops).1 (specFinal sp ops) (n + ops.length) := by
+    Core env (run env s ops).1 (specFinal env s sp ops) (n + ops.length) := by
   intro ops
   induction ops with
   | nil => intro s sp n h _ _; exact h
@@ -368,7 +375,7 @@ theorem run_core (env : Env) (hadv : env.advInvalid = true) : ∀ (ops : List Op
     have h1 := step_core env hadv s sp n h op (hwf op (by simp)) (by omega)
     have := ih _ _ (n + 1) h1 (fun op' hop' => hwf op' (by simp [hop'])) (by omega)
     unfold run specFinal
-    simp only [List.foldl_cons, List.length_cons]
+    simp only [List.length_cons]
     have e : n + (ops.length + 1) = n + 1 + ops.length := by omega
     rw [e]; exact this
 
@@ -380,7 +387,7 @@ theorem wf_sizeOK (env : Env) (op : Op) (h : Op.wf env op) : op.sizeOK := by
 
 theorem step_ref2 (env : Env) (ok : EnvOK env) (hadv : env.advInvalid = true) (s : State) (sp : Spec) (n : Nat)
     (hR : Ref env s sp) (hC : Core env s sp n) (op : Op) (hwf : Op.wf env op) (hn : n + 1 < 2^31) :
-    Ref env (step env s op).1 (specStep sp op) ∧ (claimR s sp op).holds (step env s op).2 := by
+    Ref env (step env s op).1 (specStep s sp op) ∧ (claimR s sp op).holds (step env s op).2 := by
   cases op with
   | reopen o =>
     have hcl : claimR s sp (.reopen o) = .nothing := rfl
@@ -426,7 +433,7 @@ theorem restart_refinesR (env : Env) (ok : EnvOK env) (hadv : env.advInvalid = t
 /-- the same with retention off in every session: the unconditional claim -/
 theorem restart_refines (env : Env) (ok : EnvOK env) (hadv : env.advInvalid = true) (ops : List Op)
     (hops : ∀ op ∈ ops, Op.wf env op ∧ op.keep0) (hlen : ops.length < 2^31) :
-    AllHold (specRun {} ops) (run env init ops).2 := by
+    AllHold (specRun env init {} ops) (run env init ops).2 := by
   rw [← specRunR_eq_specRun env ops init {} init_noloss (fun op hop => (hops op hop).2)]
   exact restart_refinesR env ok hadv ops (fun op hop => (hops op hop).1) hlen
 
